@@ -207,6 +207,9 @@ def oracle_c05(ctx):
 
 # ---------------------------------------------------------------- C06 / C07 definitions
 
+SPELLED = {"truest": "Truest", "falsest": "Falsest"}
+
+
 def oracle_definition(ctx, table, what, in_range_only=False, dtype_rule=None):
     """compares implementation results with the exact reference definition of `table[cmd]`"""
     def on_result(case, out, ans):
@@ -223,7 +226,16 @@ def oracle_definition(ctx, table, what, in_range_only=False, dtype_rule=None):
                 return
         if in_range_only and any(v is not None and not (-1 <= v <= 1) for i in ins for v in i):
             return
-        f = table[case.cmd](case.params)
+        params = case.params
+        if case.cmd == "FuzzySelectedUnion" and params.get("TruestOrFalsest") not in ("Truest", "Falsest"):
+            # another spelling of the keyword (truest, FALSEST, " Truest"): the command may refuse it (not this oracle's business) - but where it accepts it,
+            # the result is the mean of the k truest / falsest as the word says
+            word = SPELLED.get(str(params.get("TruestOrFalsest")).strip().lower())
+            if word is None:
+                return
+            params = dict(params, TruestOrFalsest=word)
+            ctx.count("selected_union_spelling_accepted")
+        f = table[case.cmd](params)
         exp = reference.cellwise(f, ins)
         if in_range_only:
             exp = [None if e is None else reference.clamp(e) for e in exp]
@@ -273,6 +285,80 @@ def oracle_commutative(ctx, cmds, max_perms=6):
                 ctx.fail("%s: input order %r gives a different outcome (%s)" % (case.cmd, perm, d), {"case": case.describe(), "order": list(perm)})
                 break
     return on_result
+
+
+# ---------------------------------------------------------------- definitions at scale (fields of 10^5 .. some 10^6 cells)
+
+def np_reference(cmd, params, arrays):
+    """the definition of a fuzzy operator / arithmetic command written with plain numpy over whole fields (float64): (values, missing cells) - for fields far
+    too large for the cell-by-cell exact reference; None when the definition gives no field (a weight sum of 0)"""
+    data = [numpy.ma.getdata(a).astype(float) for a in arrays]
+    miss = numpy.zeros(data[0].shape, dtype=bool)
+    for a in arrays:
+        miss = miss | numpy.ma.getmaskarray(a)
+    n = len(data)
+    with numpy.errstate(all="ignore"):
+        if cmd in ("FuzzyOr", "Maximum"):
+            v = numpy.maximum.reduce(data)
+        elif cmd in ("FuzzyAnd", "Minimum"):
+            v = numpy.minimum.reduce(data)
+        elif cmd == "FuzzyNot":
+            v = -data[0]
+        elif cmd == "Copy":
+            v = data[0]
+        elif cmd == "Sum":
+            v = numpy.add.reduce(data)
+        elif cmd in ("FuzzyUnion", "Mean"):
+            v = numpy.add.reduce(data) / n
+        elif cmd == "Multiply":
+            v = numpy.multiply.reduce(data)
+        elif cmd == "AMinusB":
+            v = data[0] - data[1]
+        elif cmd == "ADividedByB":
+            zero = data[1] == 0
+            miss = miss | zero                      # division by zero yields a missing cell
+            v = data[0] / numpy.where(zero, 1.0, data[1])
+        elif cmd in ("WeightedSum", "WeightedMean", "FuzzyWeightedUnion"):
+            w = [float(x) for x in params["Weights"]]
+            v = numpy.add.reduce([x * d for x, d in zip(w, data)])
+            if cmd != "WeightedSum":
+                if sum(w) == 0:
+                    return None
+                v = v / sum(w)
+        elif cmd in ("FuzzySelectedUnion", "FuzzyXOr"):
+            s = numpy.sort(numpy.stack(data), axis=0)
+            if cmd == "FuzzyXOr":
+                t1, t2 = s[-1], s[-2]
+                v = numpy.where(t1 <= -1, -1.0, t1 - (t1 - t2) * (t2 + 1) / numpy.where(t1 <= -1, 1.0, t1 + 1))
+            else:
+                k = params["NumberToConsider"]
+                word = SPELLED[str(params["TruestOrFalsest"]).strip().lower()]
+                v = (s[n - k:] if word == "Truest" else s[:k]).mean(axis=0)
+        else:
+            raise KeyError(cmd)
+        if cmd.startswith("Fuzzy"):
+            v = numpy.clip(v, -1.0, 1.0)
+    return v, miss
+
+
+def field_differs(result, ref, tol=TOL):
+    """None, or a description of the first cell in which a result field differs from (values, missing cells): missing cells exactly, values within `tol`"""
+    v, miss = ref
+    if not isinstance(result, numpy.ndarray):
+        return "the result is a %s, not an array" % type(result).__name__
+    if result.shape != v.shape:
+        return "the result has shape %r, the inputs %r" % (result.shape, v.shape)
+    rm, rd = numpy.ma.getmaskarray(result), numpy.ma.getdata(result)
+    if not numpy.array_equal(rm, miss):
+        i = int(numpy.flatnonzero((rm != miss).ravel())[0])
+        return "cell %d is %s in the result (%r); by the definition it is %s" % (
+            i, "missing" if rm.ravel()[i] else "present", rd.ravel()[i].item(), "missing" if miss.ravel()[i] else "present with value %r" % v.ravel()[i].item())
+    with numpy.errstate(all="ignore"):
+        ok = (numpy.abs(rd - v) <= tol * numpy.maximum(1.0, numpy.abs(v))) | miss
+    if not ok.all():
+        i = int(numpy.flatnonzero(~ok.ravel())[0])
+        return "cell %d is %r; the definition gives %r" % (i, rd.ravel()[i].item(), v.ravel()[i].item())
+    return None
 
 
 def combine(*oracles):
